@@ -38,6 +38,15 @@ def run(ctx):
         fns = [[fn(1, "R0", "E1", True)] * 3, [fn(1, "R0", "E1", True)] * 3]
         scs.append(scenario([retry(1, dly=1), rl("r", 3, wait=1)], fns, [start(1), start(2, 1), env("CtxCancel", t, 2)]))
         scs.append(scenario([retry(2, dly=1), rl("r", 2, wait=0)], fns, [start(1), start(2, 1)]))
+    # OnHedge / OnRetryScheduled / OnRetry belong to a hedge or retry that happens: the execution is cancelled (caller, outer
+    # Timeout, async Cancel) while a hedge delay or retry delay is running and the attempt in flight does not notice
+    for st in ([hg(2, 2)], [to(1), hg(1, 2)], [to(3), hg(2, 2)], [retry(2, dly=3)], [to(3), retry(2, dly=2)], [fb(), hg(1, 3), retry(1, dly=2)]):
+        for coop in (False, True):
+            fns = [[fn(5, "R0", "E1", coop), fn(1, "R0", "E1", coop), fn(5, "R0", "E1", coop)]]
+            scs.append(scenario(st, fns, [start(1)]))
+            for ct in (1, 2, 3, 4):
+                scs.append(scenario(st, fns, [start(1), env("CtxCancel", ct, 1)]))
+                scs.append(scenario(st, fns, [start(1, 0, True), env("AsyncCancel", ct, 1)]))
     p_c07.run_family(ctx, "c16t", scs, props=("C16",))
     return vlib.finish(ctx, rule="all stacks of depth <= D over %d descriptors; the ordered per-execution log of every listener (name, policy, payload) compared with the spec's, under 5 listener-registration variants; "
                        "non-trivial = more than one invocation or any policy event" % len(NAMES), exhaustive=True)
